@@ -5,6 +5,7 @@
 //   lsmv batch <profile> <seed0> <count> <n_ops> <outdir> <scratch> [blob]
 //                                                       gen+run many; writes <seed>.hist/.trace
 
+mod conc;
 mod corrupt;
 mod drive;
 mod gen;
@@ -112,6 +113,63 @@ fn main() {
             let text = corrupt::run(seed, &scratch, blob, exhaustive, samples);
             std::fs::write(&args[4], text).expect("write");
             let _ = std::fs::remove_dir_all(&scratch);
+        }
+        Some("runkeep") => {
+            // lsmv runkeep <history> <dir> : run a history in <dir> (created fresh), print the
+            // trace with dumps, keep the directory. With LSMV_MARK set, every operation is
+            // bracketed by marker writes to stderr (for syscall traces).
+            let text = std::fs::read_to_string(&args[2]).expect("history file");
+            let h = ops::History::parse(&text);
+            let dir = PathBuf::from(&args[3]);
+            let _ = std::fs::remove_dir_all(&dir);
+            std::fs::create_dir_all(&dir).expect("mkdir");
+            let trace = drive::run_history_keep_opt(&h, &dir, true);
+            print!("{trace}");
+            println!("END");
+        }
+        Some("opendump") => {
+            // lsmv opendump <dir> <cfg-line...> : open an EXISTING directory in place (recovery
+            // runs on it), print `OPEN ok|err ...`, a full logical dump and the directory
+            // listing after recovery cleanup, then read every key of the tables at SeqNo::MAX
+            let dir = PathBuf::from(&args[2]);
+            let cfg = ops::TreeCfg::parse(&args[3..].join(" "));
+            let mut d = drive::Driver::new(&dir, cfg);
+            let r = std::panic::catch_unwind(std::panic::AssertUnwindSafe(|| d.open()));
+            match r {
+                Ok(Ok(())) => {
+                    println!("OPEN ok");
+                    let r2 = std::panic::catch_unwind(std::panic::AssertUnwindSafe(|| {
+                        d.dump();
+                    }));
+                    if r2.is_err() {
+                        println!("DUMP panic");
+                    }
+                    print!("{}", d.out);
+                    let _ = std::panic::catch_unwind(std::panic::AssertUnwindSafe(|| d.close()));
+                }
+                Ok(Err(e)) => println!("OPEN err {}", e.replace(' ', "_")),
+                Err(_) => println!("OPEN panic"),
+            }
+            println!("END");
+        }
+        Some("conc") => {
+            // lsmv conc <seed0> <count> <outdir> <scratch> <n_writes> <pub|pubj|vis> [blob]
+            let seed0: u64 = args[2].parse().expect("seed0");
+            let count: u64 = args[3].parse().expect("count");
+            let outdir = PathBuf::from(&args[4]);
+            let scratch = PathBuf::from(&args[5]);
+            let n_writes: usize = args[6].parse().expect("n_writes");
+            let writer_published = args[7] == "pub" || args[7] == "pubj";
+            let preempt_writer = args[7] == "pubj" || args[7] == "vis";
+            let blob = args.get(8).is_some_and(|s| s == "blob");
+            std::fs::create_dir_all(&outdir).expect("outdir");
+            for seed in seed0..seed0 + count {
+                let dir = fresh_dir(&scratch, &format!("conc-{seed}"));
+                let trace = conc::run(seed, &dir, blob, n_writes, writer_published, preempt_writer);
+                std::fs::write(outdir.join(format!("{seed}.trace")), trace).expect("write");
+                std::fs::write(outdir.join(format!("{seed}.hist")), format!("# concurrent run: lsmv conc {seed} 1 <outdir> <scratch> {n_writes} {}{}\n", args[7], if blob { " blob" } else { "" })).expect("write");
+                let _ = std::fs::remove_dir_all(&dir);
+            }
         }
         Some("tbench") => {
             let seed0: u64 = args[2].parse().expect("seed0");
